@@ -208,3 +208,65 @@ func c08DnlBurst(c *h.Ctx, id string, r *rand.Rand) {
 	}
 	c.Distinct(fmt.Sprintf("dnl-burst|over-100=%v", recorded > 100))
 }
+
+// c08Backlog: maintenance under load. For a quarter of a second more Interests arrive than the
+// free-running forwarding thread can take (its queue stays full, so every maintenance tick of that
+// period falls into a backlog); all of them live 50 ms. Once the burst is over the thread's own
+// maintenance must empty the PIT - within 8 s, i.e. 160 lifetimes.
+func c08Backlog(c *h.Ctx, id string, r *rand.Rand) {
+	c.Eval(1)
+	s := fwsim.New(fwsim.Options{CsAdmit: false, CsServe: false, CsCapacity: 8, DnlLifetimeMs: 100,
+		FibAlgo: []string{"nametree", "hashtable"}[r.Intn(2)], FreeRunning: true})
+	s.AddFace(1, true, defn.PointToPoint)
+	s.AddFace(2, false, defn.PointToPoint)
+	px, _ := enc.NameFromStr("/x")
+	s.Fib.InsertNextHopEnc(px, 2, 1)
+	go s.T.Run()
+	defer func() {
+		core.ShouldQuit = true
+		s.T.TellToQuit()
+		select {
+		case <-s.T.HasQuit:
+		case <-time.After(5 * time.Second):
+		}
+		core.ShouldQuit = false
+	}()
+	life := 50
+	burst := time.Duration(180+r.Intn(150)) * time.Millisecond
+	t0 := time.Now()
+	sent := 0
+	for time.Since(t0) < burst && sent < 80000 {
+		nm, _ := enc.NameFromStr(fmt.Sprintf("/x/bk/%d", sent))
+		nonce := uint32(5000 + sent)
+		st := &fwStep{Kind: "interest", Face: 1, name: nm, Nonce: &nonce, LifeMs: &life}
+		p, err := fwsim.PktFromWire(buildInterestWire(st), 1, nil, nil)
+		if err != nil {
+			c.Inconclusive("cannot build Interest")
+			return
+		}
+		s.T.QueueInterest(p) // dropped when the queue is full: that is the backlog
+		sent++
+		if sent%2000 == 0 {
+			s.TakeSends()
+		}
+	}
+	peak := s.T.GetNumPitEntries()
+	var n int
+	tw := time.Now()
+	for {
+		n = s.T.GetNumPitEntries()
+		if n == 0 || time.Since(tw) > 8*time.Second {
+			break
+		}
+		time.Sleep(10 * time.Millisecond)
+		s.TakeSends()
+	}
+	c.Count("backlog_bursts", 1)
+	c.Count("backlog_interests_offered", int64(sent))
+	c.Distinct("free-running|backlog")
+	if n != 0 {
+		c.Violation("C08:pit-entry-outlives-lifetime:after-backlog", id,
+			fmt.Sprintf("%d Interests (lifetime %d ms) were offered within %d ms; %d ms after the burst the PIT still holds %d entries (%d right after the burst): the thread's own maintenance no longer removes expired entries", sent, life, burst.Milliseconds(), time.Since(tw).Milliseconds(), n, peak),
+			map[string]any{"offered": sent, "burst_ms": burst.Milliseconds(), "pit_after_burst": peak, "pit_now": n})
+	}
+}
